@@ -12,6 +12,8 @@
 import UnicLocale.Lemmas.CmpOrder
 import UnicLocale.Lemmas.Parts
 import UnicLocale.Props.C05
+import UnicLocale.Props.C10
+import UnicLocale.Lemmas.Total
 
 namespace UL.Props.C12
 open UL
@@ -234,5 +236,44 @@ example : Language.eqStr none [117, 110, 100] = true := by decide
 example : Locale.inv { id := { language := some [101, 110] },
                        ext := { unicode := { keywords := [([99, 97], [[98, 117, 100, 100, 104, 105, 115, 116]])] },
                                 priv := [[112, 114, 105, 118]] } } = true := by decide
+
+/-! ### two routes to one value
+
+The reference model of C10 forgets how a value was built: it is a record of sets and maps.  On the
+representation invariant the abstraction is injective, so whichever route through the safe API
+leads to the same abstract value leads to the same concrete value — equal under `==`, `Equal` under
+`cmp`, with the same hash stream and the same text. -/
+
+/-- the abstraction is injective on the representation invariant -/
+theorem abs_injective (x y : Locale) (hx : x.inv = true) (hy : y.inv = true) (h : UL.Rf.abs x = UL.Rf.abs y) : x = y := by
+  rw [locale_eq_iff_display_eq x y hx hy, UL.Props.C10.display_refines, UL.Props.C10.display_refines, h]
+
+/-- two histories (any operations, any argument byte strings, from any two obtainable values) that the
+    set/map reference model takes to the same abstract value end in the same concrete value -/
+theorem routes_agree (T : Tables) (hT : tablesWF T = true) (x y : Locale) (hx : x.inv = true) (hy : y.inv = true)
+    (os os' : List Op)
+    (h : Spec.absRunState (UL.Rf.modelLikely T) (UL.Rf.abs x) os = Spec.absRunState (UL.Rf.modelLikely T) (UL.Rf.abs y) os') :
+    runState T x os = runState T y os' := by
+  have hpres : ∀ x o, x.inv = true → (step T x o).1.inv = true := fun x o hx => UL.Reach.step_inv T x o hT hx
+  have h1 := UL.Props.C10.runState_of_pres T (UL.Rf.modelLikely T) (UL.Rf.modelLikely_agrees T) hpres x hx os
+  have h2 := UL.Props.C10.runState_of_pres T (UL.Rf.modelLikely T) (UL.Rf.modelLikely_agrees T) hpres y hy os'
+  exact abs_injective _ _ h1.2 h2.2 (by rw [h1.1, h2.1, h])
+
+/-- … hence they compare `Equal`, hash equally and print the same text -/
+theorem routes_agree_observably (T : Tables) (hT : tablesWF T = true) (x y : Locale) (hx : x.inv = true) (hy : y.inv = true)
+    (os os' : List Op)
+    (h : Spec.absRunState (UL.Rf.modelLikely T) (UL.Rf.abs x) os = Spec.absRunState (UL.Rf.modelLikely T) (UL.Rf.abs y) os') :
+    cmpLoc (runState T x os) (runState T y os') = .eq ∧ hashLoc (runState T x os) = hashLoc (runState T y os') ∧
+    Locale.display (runState T x os) = Locale.display (runState T y os') := by
+  have e := routes_agree T hT x y hx hy os os' h
+  rw [e]
+  exact ⟨(cmpLoc_eq_iff _ _).2 rfl, rfl, rfl⟩
+
+-- non-vacuity: `set_attribute foo; set_attribute bar` and `set_attribute bar; set_attribute foo` from the
+-- default value reach the same abstract value (checked by evaluation on a tiny table set)
+example : Spec.absRunState (UL.Rf.modelLikely UL.Tot.tinyTables) (UL.Rf.abs {})
+      [.setAttribute [102, 111, 111], .setAttribute [98, 97, 114]] =
+    Spec.absRunState (UL.Rf.modelLikely UL.Tot.tinyTables) (UL.Rf.abs {})
+      [.setAttribute [98, 97, 114], .setAttribute [102, 111, 111]] := by decide
 
 end UL.Props.C12
